@@ -85,7 +85,14 @@ func genQuery(r *Rng, m *qMeta) []string {
 	G := m.Groups
 	small := !m.Big
 	for {
-		switch r.Intn(69) {
+		switch r.Intn(72) {
+		case 69, 70:
+			// prepared statements and cursors whose placeholders are evaluated for every record (by every worker)
+			return []string{"PREPARE pq FROM 'SELECT id, v + ? AS w, s || ? AS t FROM a WHERE IFNULL(v, 0) > ? AND s <> ?';", "EXECUTE pq USING 1, 'x', 0, 'none';", "EXECUTE pq USING @n, @x, -100, (SELECT MIN(s) FROM a);",
+				"PREPARE pg FROM 'SELECT g + ? AS k, COUNT(*), SUM(v * ?) FROM a GROUP BY g + ? HAVING COUNT(*) > ?';", "EXECUTE pg USING 10, 2, 10, 0;", "DISPOSE PREPARE pq;", "DISPOSE PREPARE pg;"}
+		case 71:
+			return []string{"PREPARE pc FROM 'SELECT id FROM a WHERE g = ? OR s = ?';", "DECLARE cq CURSOR FOR pc;", "OPEN cq USING 1, 'cat';", "VAR @cid;", "FETCH cq INTO @cid;", "PRINT @cid;", "CLOSE cq;",
+				"OPEN cq USING (SELECT MIN(g) FROM a), @x;", "FETCH cq INTO @cid;", "PRINT @cid;", "CLOSE cq;", "DISPOSE CURSOR cq;", "DISPOSE PREPARE pc;", "PREPARE pu FROM 'UPDATE a SET v = IFNULL(v, 0) + ? WHERE id % ? = 0';", "EXECUTE pu USING 3, 2;", "SELECT * FROM a;", "DISPOSE PREPARE pu;"}
 		case 63, 64, 65:
 			// many functions per row at once, all of them valid: every worker is inside every one of them
 			return []string{fmt.Sprintf("SELECT id, %s FROM a;", exprList(r, r.Range(10, 18))), fmt.Sprintf("SELECT COUNT(*) FROM a WHERE LEN(STRING(%s)) + LEN(STRING(%s)) >= 0 OR TRUE;", c14Exprs[r.Intn(len(c14Exprs))], c14Exprs[r.Intn(len(c14Exprs))])}
